@@ -138,19 +138,30 @@ def _diff(a, b):
 
 
 # ------------------------------------------------------------------ building
-def build(spec, control, tm=None, sm=None):
+def _layout(a, memory):
+    """Same values, other memory layout: 'F' = column-major (what np.array([col1, col2]).T gives),
+    'strided' = a non-contiguous view of a larger buffer."""
+    if memory == "F" and a.ndim == 2:
+        return np.asfortranarray(a)
+    if memory == "strided":
+        big = np.repeat(a, 2, axis=0)
+        return big[::2]
+    return a
+
+
+def build(spec, control, tm=None, sm=None, memory=None):
     n = len(spec["tn"])
     arity = spec.get("arity") or len(spec["tn"][0])
     kw = {}
     if spec.get("obs") is not None:
-        kw["observations"] = np.array(floats(list(spec["obs"])), dtype=float).reshape(n)
+        kw["observations"] = _layout(np.array(floats(list(spec["obs"])), dtype=float).reshape(n), memory)
         if spec.get("mask") is not None:
-            kw["observation_mask"] = np.array(spec["mask"], dtype=bool).reshape(n)
+            kw["observation_mask"] = _layout(np.array(spec["mask"], dtype=bool).reshape(n), memory)
     return Screen(
-        treatment_names=np.array(spec["tn"], dtype=str).reshape(n, arity),
-        treatment_doses=np.array(spec["td"], dtype=float).reshape(n, arity),
-        sample_names=np.array(spec["sn"], dtype=str).reshape(n),
-        plate_names=np.array(spec["pn"], dtype=str).reshape(n),
+        treatment_names=_layout(np.array(spec["tn"], dtype=str).reshape(n, arity), memory),
+        treatment_doses=_layout(np.array(spec["td"], dtype=float).reshape(n, arity), memory),
+        sample_names=_layout(np.array(spec["sn"], dtype=str).reshape(n), memory),
+        plate_names=_layout(np.array(spec["pn"], dtype=str).reshape(n), memory),
         control_treatment_name=control,
         treatment_mapping=tm,
         sample_mapping=sm,
@@ -359,8 +370,13 @@ def run_case(case, col, tmp, verbose=False):
         if case.get("source") is not None:
             src = build(case["source"], control)
             tm, sm = src.treatment_mapping, src.sample_mapping
-        s = build(case["spec"], control, tm, sm)
+        s = build(case["spec"], control, tm, sm, memory=case.get("memory"))
         round_trip(s, cycles, col, case, case["family"], tmp, verbose)
+        # the same screen handed over in other memory layouts (column-major name / dose matrices, strided views)
+        if case.get("memory") is None and len(case["spec"]["tn"]) >= 2 and len(case["spec"]["tn"][0]) >= 2:
+            for mem in ("F", "strided"):
+                c2 = dict(case, memory=mem)
+                round_trip(build(case["spec"], control, tm, sm, memory=mem), cycles, col, c2, case["family"] + "|layout-" + mem, tmp, verbose)
         return
     if kind == "holdout":
         parent = build(case["spec"], control)
